@@ -15,6 +15,8 @@
 //!                 "rnd <seed> <permille>"     switch to a random runnable thread with that probability
 //!     options appended: "spur=<n>" spurious wake-up of a parked thread after n scheduling rounds,
 //!                       "tick=<n>" clock advance per Instant::now() (default 1)
+//!                       "hold=<tid>:<step>" the thread is not scheduled before that global step unless nobody else can run
+//!                       "limit=<n>" step budget of the execution (default 200000)
 //! stdout: per execution
 //!     X <program id> <schedule spec>
 //!     <step> <tid> <kind> <loc> <a> <b> <ord> <ord2> <result> <file:line>     (events)
@@ -70,6 +72,8 @@ struct Sched {
     active: bool,
     limit: u64,
     overrun: bool,
+    last_body: String,
+    rep: u64,
     /// (thread, step): the thread is not scheduled before that global step unless nobody else can run
     hold: Vec<(usize, u64)>,
 }
@@ -232,6 +236,7 @@ fn yield_blocked(s: &mut Sched, t: usize) {
             s.spur -= 1;
             s.state[p] = TS::Runnable;
             let _ = writeln!(s.trace, "{} {} SPURIOUS - 0 0 - - 0 -", s.steps, p);
+            s.last_body.clear();
             hand_over(s, p);
             return;
         }
@@ -310,6 +315,7 @@ impl Handler for SchedHandler {
                     let s = g.as_mut().unwrap();
                     if s.stuck {
                         let _ = writeln!(s.trace, "{} {} PARK - 0 0 - - 2 {}:{}", step, t, ev.file, ev.line);
+                        s.last_body.clear();
                         drop(g);
                         return 0;
                     }
@@ -354,7 +360,18 @@ impl Handler for SchedHandler {
             _ => (ev.a.to_string(), ev.b.to_string()),
         };
         let f = ev.file.rsplit('/').next().unwrap_or(ev.file);
-        let _ = writeln!(s.trace, "{} {} {} {} {} {} {} {} {} {}:{}", step, t, kind_name(ev.kind), loc, a, b, ev.ord, ev.ord2, res, f, ev.line);
+        let body = format!("{} {} {} {} {} {} {} {} {}:{}", t, kind_name(ev.kind), loc, a, b, ev.ord, ev.ord2, res, f, ev.line);
+        // a long run of identical failed attempts of one thread (a spinning lock waiter) is logged once, with a count
+        if ev.kind == Kind::Cas && res < 256 && s.last_body == body {
+            s.rep += 1;
+        } else {
+            if s.rep > 0 {
+                let _ = writeln!(s.trace, "# {} more identical failed attempts", s.rep);
+                s.rep = 0;
+            }
+            let _ = writeln!(s.trace, "{} {}", step, body);
+            s.last_body = body;
+        }
         if ev.kind == Kind::Access && ev.a as u8 == acc::SIG_END {
             let addr = ev.addr;
             s.sigs.retain(|(st, _, _)| *st != addr);
@@ -375,6 +392,7 @@ fn note(t: usize, what: &str) {
     if let Some(s) = g.as_mut() {
         let step = s.steps;
         let _ = writeln!(s.trace, "{} {} {}", step, t, what);
+        s.last_body.clear();
     }
 }
 
@@ -384,6 +402,8 @@ fn vt_clone(p: *const ()) -> RawWaker {
 }
 fn vt_wake(p: *const ()) {
     let t = kanal::verif::vtid().unwrap_or(99);
+    // a scheduling point between the peer's final store and the wake-up it delivers
+    kanal::verif::std::thread::yield_now();
     note(t, &format!("WAKE {}", p as usize));
 }
 fn vt_drop(_p: *const ()) {}
@@ -776,8 +796,10 @@ fn run_one<T: Tagged>(pid: &str, cap: &str, threads: &[(usize, Vec<String>)], sp
             next_sig: 0,
             locks: HashMap::new(),
             active: true,
-            limit: 200_000,
+            limit: spec.split_whitespace().find_map(|x| x.strip_prefix("limit=").and_then(|v| v.parse().ok())).unwrap_or(200_000),
             overrun: false,
+            last_body: String::new(),
+            rep: 0,
             hold: parse_hold(spec),
         });
     }
